@@ -105,6 +105,7 @@ fn run(rt: &tokio::runtime::Runtime, scn: &Scenario, k: usize, trace: &mut Trace
     let m1 = hash(b"attacker-nonce-m1");
     w.nonces.insert("m1".into(), m1);
     w.names.insert(m1, "m1".into());
+    w.nonces.insert("zero".into(), [0u8; 32]);
 
     // connection ids -> peer indices: outgoing ("ini") connections are static peers
     let nconn = scn.roles.len() as u64;
@@ -223,11 +224,12 @@ fn run(rt: &tokio::runtime::Runtime, scn: &Scenario, k: usize, trace: &mut Trace
         for op in node.io.drain_journal() {
             match op {
                 IoOp::Send { peer, buf } => {
+                    let conn = index_of.iter().find(|(_, i)| **i == peer).map(|(c, _)| *c).unwrap_or(0);
                     if let Ok(m) = Message::deserialize(buf) {
                         match m {
                             Message::HandshakeChallenge(c) => {
                                 let n = w.name_challenge(c.challenge);
-                                sent.push(json!({"to": peer, "msg": "chal", "x": n}));
+                                sent.push(json!({"to": peer, "conn": conn, "msg": "chal", "x": n}));
                             }
                             Message::HandshakeResponse(r) => {
                                 // which known nonce does the signature cover?
@@ -241,14 +243,14 @@ fn run(rt: &tokio::runtime::Runtime, scn: &Scenario, k: usize, trace: &mut Trace
                                     w.sig_a.insert(over.clone(), r.signature);
                                 }
                                 let y = w.name_challenge(r.challenge);
-                                sent.push(json!({"to": peer, "msg": "resp", "over": over, "y": y}));
+                                sent.push(json!({"to": peer, "conn": conn, "msg": "resp", "over": over, "y": y}));
                             }
-                            Message::BlockchainRequest(_) => sent.push(json!({"to": peer, "msg": "chainreq"})),
-                            _ => sent.push(json!({"to": peer, "msg": "other"})),
+                            Message::BlockchainRequest(_) => sent.push(json!({"to": peer, "conn": conn, "msg": "chainreq"})),
+                            _ => sent.push(json!({"to": peer, "conn": conn, "msg": "other"})),
                         }
                     }
                 }
-                IoOp::Disconnect { peer } => sent.push(json!({"to": peer, "msg": "disconnect"})),
+                IoOp::Disconnect { peer } => sent.push(json!({"to": peer, "conn": 0, "msg": "disconnect"})),
                 _ => {}
             }
         }
